@@ -66,6 +66,8 @@ pub struct World {
     pub tick: i64,
     pub dummy: u64,
     pub allow_free: bool,
+    /// an expected event did not arrive: the remaining operations of the case are not run
+    pub dead: bool,
 }
 
 fn site_key(case: u64, s: u64) -> Vec<u8> {
@@ -90,6 +92,7 @@ impl World {
             tick: 0,
             dummy: 0,
             allow_free: false,
+            dead: false,
         };
         w.set_clock();
         for s in 0..nsites {
@@ -233,7 +236,7 @@ impl World {
 
     /// observation of site `s` after an op that requested `n_data` recomputes
     async fn observe(&mut self, s: usize, status: &str, n_data: usize) -> String {
-        let got = self.sites[s].inst.collect(n_data, 10_000).await;
+        let got = self.sites[s].inst.collect(n_data, 5_000).await;
         let (status, evs) = match got {
             Ok(per_sub) => {
                 let first = format!("{:?}", per_sub[0]);
@@ -433,7 +436,7 @@ impl World {
         drop(send);
         if let Some(tx) = stall {
             // the stream's recompute request is answered (one data event) before the reader is released
-            match self.sites[s].inst.collect(1, 10_000).await {
+            match self.sites[s].inst.collect(1, 5_000).await {
                 Ok(per_sub) => pre = per_sub,
                 Err(e) => status = e,
             }
@@ -534,6 +537,17 @@ impl World {
     }
 
     pub async fn op(&mut self, kind: &str, kv: &Kv, stats: &mut Stats) -> String {
+        if self.dead {
+            return "dead".into();
+        }
+        let r = self.op_inner(kind, kv, stats).await;
+        if r.starts_with("timeout") || r.starts_with("barrier-timeout") {
+            self.dead = true;
+        }
+        r
+    }
+
+    async fn op_inner(&mut self, kind: &str, kv: &Kv, stats: &mut Stats) -> String {
         let s = get_u(kv, "s").unwrap_or(0) as usize;
         match kind {
             "day" => match get_u(kv, "add") {
@@ -870,7 +884,7 @@ impl World {
         }
         self.step_clock();
         // the grouping of cells into events depends on the schedule: the observation is the union
-        let got = self.sites[s].inst.collect(n_req, 10_000).await;
+        let got = self.sites[s].inst.collect(n_req, 5_000).await;
         let obs = match got {
             Ok(per_sub) => {
                 let first = format!("{:?}", per_sub[0]);
